@@ -125,6 +125,9 @@ func buildC17(tier string) sim.Scenario {
 			}
 			return copyOf(model)
 		}
+		// every table the route manager can have held, in order; committed = index of the current one
+		tables := []map[string]c17Route{copyOf(model)}
+		committed := 0
 		begin := func(key string, r *c17Route) {
 			mu.Lock()
 			pending = copyOf(model)
@@ -133,18 +136,28 @@ func buildC17(tier string) sim.Scenario {
 			} else {
 				pending[key] = *r
 			}
+			tables = append(tables, copyOf(pending))
 			mu.Unlock()
 		}
 		commit := func() {
 			mu.Lock()
 			model, pending = pending, nil
+			committed = len(tables) - 1
 			mu.Unlock()
 		}
 		check := func(who string, q string, before, after map[string]c17Route) {
+			// the lookup is atomic under the table lock, but edits may complete or begin while it waits for the lock:
+			// every table between the one current before the call and the newest one begun before it returned is acceptable
+			mu.Lock()
+			first := committed
+			mu.Unlock()
 			got := route.Match(q)
+			mu.Lock()
+			cands := append([]map[string]c17Route{before, after}, tables[first:]...)
+			mu.Unlock()
 			var okAny bool
 			var want string
-			for _, tbl := range []map[string]c17Route{before, after} {
+			for _, tbl := range cands {
 				f, pat, u, keep := c17Resolve(tbl, q)
 				want = fmt.Sprintf("found=%v pattern=%q url=%q keep=%v", f, pat, u, keep)
 				if !f && got == nil {
